@@ -18,13 +18,30 @@ U_ENV = F('+0', 'ps')      # rand Standard f64: uniform on [0, 1)
 KT_POS = F('ps', '1', 'pb')
 
 
+def decision_params(f, body):
+    """(role names, symbolic arguments) of a decision function: a parameter is a role by its name; a parameter of a plain struct
+    type (`proposal: Proposal { new, old, kt }`) contributes its fields as roles and is passed as that struct of symbols."""
+    from ..sym import STRUCT
+    names, argv = [], []
+    for i in body.args():
+        nm = body.local_name(i) or 'arg%d' % i
+        ty = f.norm(body.local_ty(i)).split('<')[0]
+        a = f.adts.get(ty)
+        flds = [fl['name'] for fl in (a.get('fields') or [])] if a and len(a.get('variants') or []) == 1 else []
+        if flds and not body.local_ty(i).startswith(('&', '*')) and ty.rsplit('::', 1)[-1] != 'MCOptimiser':
+            names.extend(flds)
+            argv.append(STRUCT(ty, (a['variants'][0], 0), [(fn_, SYM(fn_)) for fn_ in flds]))
+        else:
+            names.append(nm)
+            argv.append(SYM(nm))
+    return names, argv
+
+
 def decision_paths(f, body):
     sx = SymEx(f)
-    names = []
-    for i in body.args():
-        names.append(body.local_name(i) or 'arg%d' % i)
+    names, argv = decision_params(f, body)
     from ..sym import resolve_option_returns
-    outs = resolve_option_returns(sx, sx.run(body, [SYM(nm) for nm in names]))
+    outs = resolve_option_returns(sx, sx.run(body, argv))
     return sx, names, outs
 
 
@@ -55,9 +72,16 @@ def classify_path(o, env, rel, new_is_some, new_name='new'):
     return status
 
 
+OUTCOME = [None]        # the result type of the decision (anchors.OptimiserAnchors.outcome), set by the rules that use this module
+
+
 def ret_kind(sx, o):
+    """'Some' (accepted, carries the score) / 'None' (rejected) of a path's result, whatever two-variant type says it."""
     r = o.ret
     if r[0] == 'struct' and r[2] is not None:
+        oc = OUTCOME[0]
+        if oc is not None and r[1].split('<')[0] == oc['name'] and oc['name'] != 'std::option::Option':
+            return 'Some' if oc['sem'].get(r[2][1]) == 1 else 'None'
         return r[2][0]
     return None
 
@@ -102,7 +126,8 @@ def run(ctx):
                      'the decision is not a workspace function whose body can be analysed', 'anchor-lost'):
         return
     rep.saw(db)
-    params = [db.local_name(i) for i in db.args()]
+    OUTCOME[0] = oa.outcome
+    params, _argv = decision_params(f, db)
     need = {'new', 'old', 'kt'}
     if not rep.check(need <= set(params), 'R1', 'decision-roles', where(db), 'parameters %s' % params,
                      'cannot identify the new/old/kt roles of the decision function\'s parameters: %s' % params,
